@@ -73,6 +73,10 @@ EDITS=[
  ("C13","null-byte-accepted","syntax/quote.go",("\t\tcase '\\x00':\n\t\t\treturn \"\", &QuoteError{ByteOffset: offs, Message: quoteErrNull}\n",""),"syntax.Quote#"),
  ("C04","simplifyword-keeps-pending-backslash","syntax/simplify.go",("\t\t\tcase '$', '\"', '`':\n\t\t\t\tescaped = false","\t\t\tcase '$', '\"', '`':"),"syntax.simplifier.simplifyWord#"),
  ("C04","simplifyword-forgets-modified","syntax/simplify.go",("\t\ts.modified = true\n\t\twps[i] = &SglQuoted{","\t\twps[i] = &SglQuoted{"),"syntax.simplifier.simplifyWord#onstore@wps"),
+ ("C11","posix-accepts-extglob","syntax/parser.go",("\t\tp.checkLang(p.pos, langBashLike|LangMirBSDKorn, \"extended globs\")\n",""),"syntax#posix-gate@Parser.wordPart:new-ExtGlob"),
+ ("C11","posix-accepts-test-clause","syntax/parser.go",("\t\tcase \"[[\":\n\t\t\tif p.lang.in(langBashLike | LangMirBSDKorn | LangZsh) {\n\t\t\t\tp.testClause(s)\n\t\t\t}","\t\tcase \"[[\":\n\t\t\tp.testClause(s)"),"syntax#posix-gate@Parser.testClause:new-TestClause"),
+ ("C11","posix-accepts-dollar-quotes","syntax/lexer.go",("\t\t\tif !p.lang.in(langBashLike | LangMirBSDKorn | LangZsh) {\n\t\t\t\tbreak\n\t\t\t}\n\t\t\tp.rune()\n\t\t\treturn dollSglQuote","\t\t\tp.rune()\n\t\t\treturn dollSglQuote"),"syntax#posix-gate@"),
+ ("C11","posix-set-widened","syntax/parser.go",("p.checkLang(p.pos, langBashLike|LangMirBSDKorn|LangZsh, \"arrays\")\n\t\tas.Array = &ArrayExpr{Lparen: p.pos}","p.checkLang(p.pos, langBashLike|LangMirBSDKorn|LangZsh|LangPOSIX, \"arrays\")\n\t\tas.Array = &ArrayExpr{Lparen: p.pos}"),"syntax#posix-gate@Parser.getAssign"),
 ]
 SEEDS=[ # prop, seed dir, expect
  ("C09","C09-2","syntax.ArithmExp.End#"),
@@ -96,6 +100,7 @@ SEEDS=[ # prop, seed dir, expect
  ("C07","C07-1","syntax#refill-retry@Parser.rune"),("C07","C07-2","syntax#refill-at-boundary@Parser.rune"),("C07","C08-2","syntax#refill-at-boundary@Parser.advanceLitHdoc"),
 ]
 REVERTS=[ # prop, fix commit in /repo whose reversal must be caught, expect
+ ("C11","bd4a91d","syntax#posix-gate@Parser.arithmExprValue:ParamExp.Index"),
  ("C04","1629043","syntax.simplifier.simplifyWord#onstore@SglQuoted.Dollar"),
  ("C09","c1165de","syntax.Parser.rune#inv-init@loop1.col-tracks-next-byte"),
  ("C07","baece75","syntax#refill-at-boundary@Parser.rune"),
